@@ -150,7 +150,7 @@ def key_layout(case):
     import zlib
 
     n = len(case["base"])
-    h = zlib.crc32(repr([c["vec"] for c in case["base"]]).encode())
+    h = zlib.crc32(repr([(c["vec"] if isinstance(c, dict) else M.render_cond(*c)) for c in case["base"]]).encode())
     layouts = [
         list(range(1, n + 1)), list(range(1, n + 1)), list(range(0, n)), list(range(2, n + 2)),
         [k for k in range(1, n + 2) if k != max(1, n - 1)],          # a gap, contains n+1
